@@ -4,3 +4,5 @@ import DG.Resolve
 import DG.Walk
 import DG.Sexp
 import DG.Proto
+import DG.JsrVersion
+import DG.Decode
